@@ -5,6 +5,11 @@ from engine import graph, tlc
 from checks.conntxn_driver import Driver
 
 LEVEL = "model_checking"
+MANIFEST = dict(
+    text="ConnTxn.tla is the mechanism of Connection/RootTransaction/NestedTransaction (one action per public call, stale handles, autobegin) over a reference nested-transaction database plus an abstract RefNested ghost layer over the user's handles; TLC checks exhaustively (<=4-5 handles, <=3 rows, depth 10-12) that committed data equals the reference, flags agree, ended transactions raise instead of acting. Every labelled edge of that state graph (~120k quick) is replayed against a real Connection on SQLite comparing call outcome, in_transaction()/in_nested_transaction()/closed and the rows a second connection sees after every step.",
+    design_ref="3.4, 4 (C23), Appendix E",
+    note="trusted: TLC, sqlite3 savepoint semantics as the reference database; SQLite only (PostgreSQL/MariaDB not executable); bounded handles/rows/depth; out-of-order savepoint misuse recorded as known finding",
+    technique="TLA+ spec (ConnTxn.tla) + TLC exhaustive model checking; spec->code replay of every state-graph edge into a real Connection")
 INVS = ["NothingLost", "FlagsConsistent", "PointerSane", "RefAgree", "RefAgreeLive_InOrder", "NestedHasSavepoint_InOrder"]
 PROPS = ["CommittedOnlyByCommit", "ErrorsDontAct", "EndedDontAct"]
 FOOTPRINT = ["Begin", "BeginNested", "Exec", "ConnCommit", "ConnRollback", "H_commit", "H_rollback", "H_close", "Close"]
